@@ -77,15 +77,18 @@ def dsl_defn(d, rnd=None, vary=False):
     if vary and rnd is None:
         rnd = random.Random(repr(d))
     out = []
+    nocomma = any(en[0] == '_nocomma' for en in d)       # a marker entry: print the states list without commas (not part of the definition)
     for en in d:
         k = en[0]
+        if k == '_nocomma':
+            continue
         if k in ('name', 'initial', 'context'):
             out.append('%s: %s' % (k, en[1]))
         elif k in ('async', 'dynamic'):
             out.append('%s: %s' % (k, 'true' if en[1] else 'false'))
         elif k == 'states':
             tc = ',' if (rnd is not None and rnd.random() < 0.3 and en[1]) else ''
-            ssep = ' ' if (rnd is not None and rnd.random() < 0.15) else ', '      # the commas of the states list are optional
+            ssep = ' ' if (nocomma or (rnd is not None and rnd.random() < 0.15)) else ', '      # the commas of the states list are optional
             out.append('states: [' + ssep.join(dsl_sitem(x, True, rnd) for x in en[1]) + (tc if ssep == ', ' else '') + ']')
         elif k == 'events':
             evs = []
@@ -185,6 +188,8 @@ def coq_defn(d):
             out.append('MLegacy %s' % cq(en[1]))
         elif k == 'unknown':
             out.append('MUnknown %s' % cq(en[1]))
+        elif k == '_nocomma':
+            pass                       # printing marker, not part of the definition
         else:
             raise ValueError(en)
     return '[' + ';\n  '.join(out) + ']'
@@ -337,6 +342,7 @@ class Shape:
         self.payload = kw.get('payload', 'mixed')  # none | all | mixed
         self.super_data = kw.get('super_data', False)
         self.cross_kind = kw.get('cross_kind', False)   # a guard also used as an unless-condition (K1 only: one hook, two roles)
+        self.data_tys = kw.get('data_tys')              # spellings of the data types (K1 only: lifetimes, generics with commas, unit)
         self.pl_ty = kw.get('pl_ty', 'P')               # spelling of the payload type (K1 only: `C`, `()`, a reference)
         self.ctx_ty = kw.get('ctx_ty', 'Ctx')           # spelling of the concrete context type (K1 only: `()`, `u8`, a path)
         self.hook_event = kw.get('hook_event', False)   # a hook named like an event of the machine (K1 only: with hooks in the
@@ -371,7 +377,9 @@ def gen_forest(rnd, shape, names, snames):
     return block(shape.depth, 2)
 
 
-def assign_data(rnd, items, mode, initial, super_data=False):
+def assign_data(rnd, items, mode, initial, super_data=False, tys=None):
+    DATA_TYPES = tys or globals()['DATA_TYPES']
+
     def go(items):
         out = []
         for it in items:
@@ -400,7 +408,7 @@ def gen_wellformed(rnd, shape, idx=0):
     leaves = leaves_of(forest)
     supers = supers_of(forest)
     initial = rnd.choice(leaves)
-    forest = assign_data(rnd, forest, shape.data, initial, shape.super_data)
+    forest = assign_data(rnd, forest, shape.data, initial, shape.super_data, shape.data_tys)
     # transitions: deterministic per (event, leaf)
     # event names are sampled without a PascalCase collision (`step2`/`step_2`): that class is the known finding
     # F5a, exercised by its own probes (ties_k3b.k3_known_probes), not by the well-formed corpus
